@@ -18,7 +18,6 @@ NA = {
  "C20": "the predicates' verdicts and proposals are pure functions of their arguments (the single random draw, the number a negated count proposes, does not enter the stated relation).",
 }
 PENDING = {
- "C21": "not claimed yet: the formsim engine (shipped formalizations + independent domain validators) is under construction; applicable (DESIGN.md 5 C21).",
 }
 
 def chk(pid, engine, text, note, technique, design_ref):
@@ -54,7 +53,11 @@ CHECKS += [
  chk("C19", "clisim", "The isla command line in-process inside a per-run sandbox directory under the clock / PRNG / Z3 seams and a storage-fault layer that damages files between the write and the command that reads them (empty, torn, lost, directory, garbage bytes, NUL, BOM, CRLF, extra newlines, duplicate input). Oracle over the recorded command history on the bytes actually on disk: check/parse/find exit codes against Oracle-G/S, every solve output is in the language, satisfies the conjunction of all constraints and is accepted by a following check, parse output accepted by check, malformed-by-construction specs -> 65 + message, usage errors -> 2, any exception escaping main other than SystemExit is a traceback.", TB + " The process boundary is stubbed (in-process main).", "deterministic simulation with fault injection (storage, Z3, clock faults between/inside CLI commands), history oracle over recorded command sessions", "DESIGN.md 5 C19"),
  chk("C22", "reprosim", "For a scenario, hash seed and random seed, 2-3 fresh interpreters run the user's program (random.seed; ISLaSolver; solve() k times), each under a different perturbation schedule of what must not matter (heap ballast shifting every address/id, GC mode, import order, epoch, cwd/HOME/COLUMNS/argv) with ASLR off so that a mismatch is itself reproducible; the same deterministic Z3 budget and optional Z3-unknown schedule apply to all children. Verdict: identical sequences of (string, tree shape).", TB + " Z3 wall-clock timeouts are replaced by the rlimit budget in every child.", "deterministic simulation: seeded perturbation schedules over fresh interpreters, sequence-equality oracle", "DESIGN.md 5 C22"),
 ]
+CHECKS += [
+ chk("C21", "formsim", "Simulated solver runs on the shipped formalizations (CSV, XML, reST, simple TAR: shipped grammar + shipped constraint set or a sub-conjunction) with the repository's own settings as centre and per-run variation of PRNG seed/strategy, cost weights and k, cost-order strategy, fuzzer kind and instantiation limits; half of the run seeds are re-executed with Z3 / clock faults placed inside the run. Every returned solution is judged by the independent grammar model and an independent domain validator (own CSV field splitting, expat + own namespace/attribute rules, docutils system messages + own underline/link/numbering rules, own TAR checksum/field layout).", TB + " The domain validators demand exactly what the shipped constraints formalize; solver exceptions in these runs are C02's business and counted as inconclusive.", "deterministic simulation: seeded schedules and fault sequences over solver runs on the bundled formalizations, independent domain oracles", "DESIGN.md 5 C21"),
+]
 ENGINES += [
+ {"name": "formsim", "path": "engines/formsim.py", "serves_properties": ["C21"], "kind_free_text": "simulated solver runs on the bundled formalizations judged by independent domain validators (oracles/domains.py)"},
  {"name": "clisim", "path": "engines/clisim.py", "serves_properties": ["C19"], "kind_free_text": "in-process CLI sessions in a sandbox directory with storage / Z3 / clock faults"},
  {"name": "reprosim", "path": "engines/reprosim.py", "serves_properties": ["C22"], "kind_free_text": "fresh interpreters under perturbation schedules (engines/reprochild.py)"},
 ]
